@@ -9,6 +9,8 @@ import (
 
 const Enabled = false
 
+var CapturePath string
+
 func Init() error { return errors.New("this binary was built without -race: the data-race oracle is unavailable") }
 
 func Stderr() *os.File { return os.Stderr }
